@@ -57,6 +57,35 @@ func newRoot(name string, f Format, w io.Writer, lvl slog.Level) *slog.Entry {
 // rawEntry gets the *Entry of a detached logger without touching any state.
 func rawEntry(l slog.Logger) *slog.Entry { return l.Root() }
 
+// levels an application registered under titles that are not plain identifiers (the title is printed as the level
+// name of every record of that severity; a title is free text like any other string the library prints)
+var hostileTitles = map[slog.Level]string{
+	slog.Level(90): `we"ird`, slog.Level(91): `back\slash`, slog.Level(92): "two\nlines\r", slog.Level(93): `x" user="root`, slog.Level(94): "tab\there",
+	slog.Level(95): "ctl\x01\x7f", slog.Level(96): "caf\u00e9 \u00fc", slog.Level(97): "bad\xffutf8", slog.Level(98): `</b>&amp;`, slog.Level(99): "\x1b[31mred",
+}
+
+var hostileTitleLevels []slog.Level
+
+// registerHostileTitles registers them once per process (a refused registration is left out of the pool).
+func registerHostileTitles() {
+	if hostileTitleLevels != nil {
+		return
+	}
+	for l := slog.Level(90); l <= 99; l++ {
+		if err := slog.RegisterLevel(l, hostileTitles[l]); err == nil && l.String() == hostileTitles[l] {
+			hostileTitleLevels = append(hostileTitleLevels, l)
+		}
+	}
+}
+
+// titleOf is the name a record of that severity carries.
+func titleOf(l slog.Level) string {
+	if t, ok := hostileTitles[l]; ok {
+		return t
+	}
+	return l.String()
+}
+
 var nonTerminating = []slog.Level{slog.ErrorLevel, slog.WarnLevel, slog.InfoLevel, slog.DebugLevel, slog.TraceLevel, slog.AlwaysLevel, slog.OKLevel, slog.SuccessLevel, slog.FailLevel}
 
 // fixedPC is a stable program counter inside this binary used with WriteThru.
